@@ -316,7 +316,7 @@ pub fn run_sign(scn: &Scenario, ctx: &mut Ctx) {
                 let id = (st.arg(2) % 3) as u8;
                 let (sk, _) = keys::signing(sch, id);
                 let subj_digest = *s.env.subject().digest().data();
-                match st.arg(0) % 4 {
+                match st.arg(0) % 5 {
                     0 => {
                         // a non-signature object under 'signed'
                         s.env = s.env.add_assertion(known_values::SIGNED, format!("not-a-signature-{}", st.arg(3) % 9));
@@ -351,6 +351,26 @@ pub fn run_sign(scn: &Scenario, ctx: &mut Ctx) {
                         // the library reports "inner signature not made with same key" as an error for J
                         s.garbage = true;
                         ctx.probe("byz-foreign-signed-metadata-wrapper");
+                    }
+                    3 => {
+                        // valid inner signature by K, metadata wrapper whose outer 'signed' object is OBSCURED
+                        // (elided / compressed / encrypted): nothing verifiable covers the metadata
+                        let sig = sk.sign_with_options(&subj_digest, keys::sig_options(sch)).unwrap();
+                        let wrapped = Envelope::new(sig).add_assertion(known_values::NOTE, "forged-obscured-outer").wrap_envelope();
+                        let outer = sk.sign_with_options(&crate::model::sha(b"something else"), keys::sig_options(sch)).unwrap();
+                        let outer_env = Envelope::new(outer);
+                        let hidden = match st.arg(3) % 3 {
+                            0 => outer_env.elide(),
+                            1 => outer_env.compress().unwrap_or_else(|_| outer_env.elide()),
+                            _ => outer_env.encrypt_subject(&sym_key(3)).unwrap_or_else(|_| outer_env.elide()),
+                        };
+                        let obj = wrapped.add_assertion(known_values::SIGNED, hidden);
+                        s.env = s.env.add_assertion(known_values::SIGNED, obj);
+                        if !s.valid.contains(&(sch, id)) {
+                            s.unknown.insert((sch, id));
+                        }
+                        s.garbage = true;
+                        ctx.probe("byz-obscured-outer-signature");
                     }
                     _ => {
                         // a signature by K over some OTHER digest
@@ -517,7 +537,7 @@ pub fn generate_sign(property: &str, r: &mut SimRng, seed: u64) -> Scenario {
             11 => scn.push("S.ReplaceSubject", &[ds(r)]),
             12..=13 => {
                 if byz {
-                    scn.push("S.Byzantine", &[r.below(4), r.below(3), r.below(3), r.next() % 1000])
+                    scn.push("S.Byzantine", &[r.below(5), r.below(3), r.below(3), r.next() % 1000])
                 } else {
                     scn.push("S.Sign", &[r.below(16), r.below(3), r.below(9)])
                 }
